@@ -164,6 +164,10 @@ class Interp:
             idx = [slice(None, None, step), slice(hi, lo, step), slice(hi, None, step), slice(None, lo, step)][form]
             if len(range(n)[idx]) == 0:
                 return
+        elif kind == "empty":
+            # a selection that keeps no row at all (a mask nothing satisfies, an empty slice, an empty index array)
+            form = seed % 3
+            idx = [slice(a % n, a % n), np.zeros(n, dtype=bool), np.zeros(0, dtype=int)][form]
         elif kind == "mask":
             mask = rng.random(n) < 0.5
             if not mask.any():
@@ -189,6 +193,18 @@ class Interp:
             idx_in = XP.asarray(mask) if m["xp"] != "numpy" and seed % 2 else mask
         elif kind in ("mask_list", "index_list"):
             idx_in = [bool(v) for v in idx] if kind == "mask_list" else [int(v) for v in idx]  # plain Python lists
+        if kind == "empty":
+            w = {"cls": m["cls"], "xp": m["xp"], "bits": m["bits"], "op": "select:empty", "form": ("slice", "mask", "index_array")[seed % 3],
+                 "weighted": m["log_w"] is not None}
+            try:
+                out = obj[idx_in]
+            except Exception as e:  # noqa: BLE001
+                raise Violation("c16.empty_selection_raised", f"selecting no rows ({w['form']}) from a {m['cls']} ({m['xp']}, "
+                                f"{'weighted' if w['weighted'] else 'not weighted'}) raised {type(e).__name__}: {e}", {**w, "error_type": type(e).__name__})
+            mm = self._sel(m, idx)
+            mm["check_evidence"] = m.get("check_evidence", True)
+            self._compare(out, mm, "select:empty")
+            return  # judged, not fed back into the pool
         out = obj[idx_in]
         mm = self._sel(m, idx)
         self._compare(out, mm, f"select:{kind}")
@@ -300,7 +316,7 @@ def make_machine(interp_factory, workdir, col):
         def create(self, cls, xp, dtype, n, d, fields, evidence, seed):
             self.do("create", cls=cls, xp=xp, dtype=dtype, n=n, d=d, fields=list(fields), evidence=evidence, seed=seed)
 
-        @rule(src=st.integers(0, 20), kind=st.sampled_from(["slice", "step_slice", "neg_slice", "mask", "index_array", "mask_list", "index_list"]), a=st.integers(0, 20), b=st.integers(0, 20), seed=st.integers(0, 1000))
+        @rule(src=st.integers(0, 20), kind=st.sampled_from(["slice", "step_slice", "neg_slice", "mask", "index_array", "mask_list", "index_list", "empty"]), a=st.integers(0, 20), b=st.integers(0, 20), seed=st.integers(0, 1000))
         def select(self, src, kind, a, b, seed):
             self.do("select", src=src, kind=kind, a=a, b=b, seed=seed)
 
